@@ -26,6 +26,7 @@ of the merge scenario (random masters, all splits at splittable points, ALL load
 -/
 import AutosarVerif.Lemmas.Files
 import AutosarVerif.Lemmas.Merge
+import AutosarVerif.Lemmas.MergeUnion
 
 namespace AV.C09
 
@@ -74,5 +75,19 @@ theorem C09_merge_loses_nothing (S : Spec) (V : W.Env) (fver : Nat → Option Na
     (ha : W.Hdr) (ka : W.Items) (files : List Nat) (kb : W.Items) (x : Nat) (hx : x ∈ ka.ids) :
     x ∈ (W.mergeElement S V fver newFile minVerB fuel ha ka files kb).1.ids :=
   W.mergeElement_keeps S V fver newFile minVerB fuel ha ka files kb x hx
+
+
+/-! ### added in the third session: statements proved in the lemma files, restated here by name
+(`type_of%` keeps the statement identical to the lemma; the signature is quoted in the comment) -/
+
+/-- **the merge algorithm on keyed, rank-sorted forests** (`Lemmas/MergeUnion.lean`): an ACCEPTED merge of the content `kb` of a new file into the content `ka` of the model yields, at every depth, exactly the specification-level union `IsUnion` (written without reference to the algorithm): the children of `ka` (a paired child merged recursively and attributed to the new file too, an unpaired one restricted to the files it was in) together with the unpaired children of `kb` (attributed to the new file); text items kept. Hypotheses `Compat`: children keyed (item name / DEFINITION-REF / unique element name), both sides sorted by the rank of their element names — what excludes the four known c09 findings
+`theorem mergeElement_isUnion (rk : Nat → Nat → Nat) (fver : Nat → Option Nat) (newFile minVerB : Nat) : ∀ (fuel : Nat) (ha : Hdr) (ka : Items) (files : List Nat) (kb kr : Items), Compat S V rk ha ka kb → mergeElement S V fver newFile minVerB fuel ha ka files kb = (kr, none) → IsUnion S V newFile ha.id files ka kb kr` -/
+theorem C09_merge_is_the_union : type_of% @AV.W.MU.mergeElement_isUnion := @AV.W.MU.mergeElement_isUnion
+
+/-- `theorem merge_level_once (fver : Nat → Option Nat) (newFile minVerB fuel : Nat) (files : List Nat) (rk : Nat → Nat) (ha : Hdr) (ka kb kr : Items) (hyp : LevelHyp S V ha.ety.typ rk ka.childElems kb.childElems) (h : mergeElement S V fver newFile minVerB (fuel + 1) ha ka files kb = (kr, none)) : (kr.childElems.map (·.1.id)).Perm (ka.childElems.map (·.1.id) ++ (bOnlyOf S V ka.childElems kb.childElems).map (·.1.id)) ∧ (kr.childElems.map (·.1.id)).Nodup` -/
+theorem C09_merge_each_child_exactly_once : type_of% @AV.W.MU.merge_level_once := @AV.W.MU.merge_level_once
+
+/-- `theorem opLoad_isUnion (nmAutosar : Nat) (w : World) (k : Nat) (name : Bytes) (strict : Bool) (buf : Bytes) (m : Model) (h : Hdr) (kids : Items) (hm : w.models[k]? = some m) (hne : m.files.isEmpty = false) (hp : (runParser S V strict buf w.nextId nmAutosar).1 = .ok (h, kids)) (rk : Nat → Nat → Nat) (hc : Compat S V rk m.rootHdr m.rootKids kids) (w' : World) (s : String) (hl : opLoad S V nmAutosar w k name strict buf = (w', .ok s)) : ∃ kr, IsUnion S V w.nextFile m.rootHdr.id (m.files.map (·.id)) m.rootKids kids kr ∧ ∃ m', w'.models[k]? = some m' ∧ ∃ base order, m'.rootKids = renumItems base order kr` -/
+theorem C09_load_into_model_is_the_union : type_of% @AV.W.MU.opLoad_isUnion := @AV.W.MU.opLoad_isUnion
 
 end AV.C09
